@@ -156,13 +156,12 @@ func c07Gen(r *driver.Rand, thorough bool) *driver.Plan {
 		p.Consumers[0].AfterClosed = "consumer.err"
 		p.Consumers[0].StartMs = 0
 	}
-	// the other sequential reader, under fail-fast only: the values are read to
-	// the end before anybody looks at the error channel — the single fail-fast
-	// error must not need a reader for the stage to finish
-	if !isGenerator(sm.stage) && sm.mode == "lift" && p.X("stderr") == 0 && p.Consumers[0].AfterClosed == "" && r.Chance(1, 4) {
-		p.Consumers[2].AfterClosed = "consumer.out"
-		p.Consumers[2].StartMs = 0
-	}
+	// Deliberately not drawn: a reader that drains the values to the end before
+	// it looks at the error channel. The library's fail-fast error channel has
+	// room for the one error, so such a reader works with it — but C07 only
+	// promises termination "provided the error channel is read", and an
+	// implementation that hands the error over synchronously keeps that promise
+	// too. (C06 does demand termination after cancel with nobody reading.)
 	// fail-fast ends the stage at the first failure, whatever the producer
 	// does afterwards: it may well keep its channel open for ever
 	if !isGenerator(sm.stage) && sm.mode == "lift" && firstFail(p, n) >= 0 && p.X("uses") == 0 && r.Chance(1, 3) {
